@@ -105,6 +105,7 @@ func writeEvidence(cfg CheckConfig, a *agg, wall time.Duration, violations, plan
 		"replays":              replays,
 		"workers":              cfg.Procs,
 		"sum_run_wall_s":       float64(a.wallUS) / 1e6,
+		"slowest_runs":         a.slowest,
 	}
 	sweepPlanned := 0
 	for _, p := range ProfilesFor(cfg.Prop) {
